@@ -229,7 +229,11 @@ ApReport(o, e) ==
   LET t == [o.tab[e.vb] EXCEPT ![e.slot] = [uuid |-> e.uuid, seq |-> e.seq, absent |-> FALSE]]
       m == CommonMin(t)
   IN  [o EXCEPT !.tab[e.vb] = t, !.best[e.vb] = IF m > @ THEN m ELSE @]
-ApAbsent(o, e) == [o EXCEPT !.tab[e.vb][e.slot].absent = TRUE]
+\* a copy that is no longer listed does not have to report: what the remaining ones reported together counts from now on
+ApAbsent(o, e) ==
+  LET t == [o.tab[e.vb] EXCEPT ![e.slot].absent = TRUE]
+      m == CommonMin(t)
+  IN  [o EXCEPT !.tab[e.vb] = t, !.best[e.vb] = IF m > @ THEN m ELSE @]
 \* something of the event in flight became visible (delivery / tracked position)
 GateCheck(o, v, q) ==
   IF o.gwait[v] >= 0 /\ q >= o.gwait[v] /\ o.gwait[v] > o.best[v]
